@@ -47,10 +47,8 @@ type lifetime struct {
 	emitted []pair // this lifetime's own lines (without image lines), in order
 	posOf   []int  // record index -> number of emitted lines up to and including that record
 	dead    bool   // the crash image could not be opened: no continuation
-	stop    bool   // C14: OpenWriter succeeded although a listing it needs had failed; the writer was closed at once, no more operations
 	ended   bool
 
-	force     map[int]bool // records whose crash images are always taken (the records of a `skipmerge` scenario and what follows it)
 	tornEpoch uint64 // two-fault scenario: the epoch whose snapshot file was torn by the crash this lifetime recovered from
 	tornLen   int
 	faults    *faultPlan // C14
@@ -644,8 +642,7 @@ func (h *HR) endLifetime(out func(string, string), st *hlib.Stats) {
 		lt.faults.mu.Lock()
 		for op := range lt.faults.mmFired {
 			st.Count(map[string]string{"mm-snap": "fault:snapshot-write-after-in-memory-merge",
-				"mm-mseg": "fault:merged-segment-write-in-memory-merge", "mm-load": "fault:merged-segment-load-in-memory-merge",
-				"open-list-seg": "fault:list-segments-at-open", "open-list-snap": "fault:list-snapshots-at-open", "open-lock": "fault:lock-at-open"}[op])
+				"mm-mseg": "fault:merged-segment-write-in-memory-merge", "mm-load": "fault:merged-segment-load-in-memory-merge"}[op])
 		}
 		lt.faults.mu.Unlock()
 	}
@@ -715,34 +712,13 @@ func (h *HR) emitLifetime(lt *lifetime, out func(string, string), st *hlib.Stats
 		}
 		nack[i] = na
 	}
-	// the window of the skipped in-memory merge: from the completion of the snapshot that follows a skipped merge introduction
-	// (`imerge e olds -`) until the next snapshot write begins — a crash there recovers exactly that snapshot
-	afterSkip := make([]bool, len(recs))
-	{
-		skipped, inWin := false, false
-		for i, rc := range recs {
-			f := strings.Fields(rc.op)
-			switch {
-			case len(f) == 4 && f[0] == "imerge" && f[3] == "-" && lt.force[i]:
-				skipped = true
-			case len(f) == 4 && f[0] == "snapend" && f[2] == "1" && skipped:
-				skipped, inWin = false, true
-			case len(f) > 0 && f[0] == "snapbegin" && inWin:
-				inWin = false
-			}
-			afterSkip[i] = inWin
-		}
-	}
 	for i, rc := range recs {
 		if rc.img == nil {
 			continue
 		}
 		infl := len(rc.img.inflight) > 0
 		limit := 0
-		forced := lt.force[i]
-		if forced {
-			// every record of a skipmerge scenario: all (boundary) variants
-		} else if all && h.Mode.Faults {
+		if all && h.Mode.Faults {
 			// thorough tier of the stream `faults`: the cases are many; every second record with files in flight gets the
 			// larger boundary set, the others two variants; every second plain record
 			if infl {
@@ -757,7 +733,7 @@ func (h *HR) emitLifetime(lt *lifetime, out func(string, string), st *hlib.Stats
 				}
 			}
 		}
-		if !all && !forced {
+		if !all {
 			if infl {
 				// quick tier: every third record with files in flight gets its whole (boundary) variant set, the others two variants
 				ninfl++
@@ -829,9 +805,6 @@ func (h *HR) emitLifetime(lt *lifetime, out func(string, string), st *hlib.Stats
 		for ji < len(jobs) && jobs[ji].recIdx == i {
 			j := jobs[ji]
 			h.emitImage(j, lt.depth, out, st)
-			if afterSkip[i] {
-				st.Count("skipmerge:crash-image-after-skipped-merge-snapshot")
-			}
 			ji++
 		}
 	}
@@ -1049,23 +1022,7 @@ func (h *HR) openLifetime(lt *lifetime) {
 	c.mu.Lock()
 	c.loadedAny = false
 	c.mu.Unlock()
-	if lt.faults != nil {
-		lt.faults.mu.Lock()
-		lt.faults.openFaultPending = false
-		lt.faults.mu.Unlock()
-	}
 	c.open()
-	if lt.faults != nil && c.w != nil {
-		lt.faults.mu.Lock()
-		ignored := lt.faults.openFaultPending
-		lt.faults.mu.Unlock()
-		if ignored {
-			// the failure was not reported (the driver says so at the `opened` record). A writer that went on without its
-			// listing can corrupt its own root (observed: duplicate segment ids, a panic in the introducer): it is closed at once
-			c.closeWriter()
-			lt.stop = true
-		}
-	}
 	c.mu.Lock()
 	k := 0
 	if c.loadedAny {
@@ -1200,23 +1157,6 @@ func (h *HR) Gen(r *hlib.Rand, tier string, scale int, emit func(string)) {
 		} else {
 			ops(7, 12, unsafe)
 		}
-		if unsafe {
-			// the skipped in-memory merge (A deletes an older marker, so the snapshot of the grabbed root differs from every
-			// earlier state also where A's and B's own documents are missing)
-			tok++
-			a := batchSpec{tok: tok, cb: true}
-			if len(live) > 0 {
-				a.dels = []int{live[0]}
-				live = live[1:]
-			}
-			tok++
-			b := batchSpec{tok: tok, cb: true}
-			tok++
-			d := batchSpec{tok: tok, cb: true, dels: []int{a.tok, b.tok}}
-			live = append(live, d.tok)
-			emit("skipmerge " + a.String() + " " + b.String() + " " + d.String())
-			ops(2, 3, unsafe)
-		}
 		emit("end")
 		if ci%4 == 2 {
 			// the boundary of "a snapshot had ever been completed": a crash during the very first snapshot Persist
@@ -1292,7 +1232,7 @@ func (h *HR) Exec(line string, out func(string, string), st *hlib.Stats, work st
 		return
 	}
 	lt := h.cur
-	if lt == nil || lt.dead || lt.stop {
+	if lt == nil || lt.dead {
 		return
 	}
 	c := lt.c
@@ -1315,26 +1255,6 @@ func (h *HR) Exec(line string, out func(string, string), st *hlib.Stats, work st
 			c.mu.Unlock()
 			lt.dead = true
 			h.emitLifetime(lt, out, st)
-		}
-	case "skipmerge":
-		// the deterministic interleaving of persistlib/skipmerge.go: the persister's in-memory merge of A+B is SKIPPED by the
-		// introducer because D deleted every document in them while the merged file was being written. Crash images are taken
-		// at every record from here to the end of the next script line.
-		if len(f) > 3 && c.w != nil {
-			c.mu.Lock()
-			from := len(c.log)
-			c.mu.Unlock()
-			st.Count("op:skipmerge")
-			c.skipMerge(parseSpec(f[1]), parseSpec(f[2]), parseSpec(f[3]), st)
-			time.Sleep(30 * time.Millisecond) // the persister's next passes (the snapshot that repairs the state) are part of the scenario
-			c.mu.Lock()
-			if lt.force == nil {
-				lt.force = map[int]bool{}
-			}
-			for i := from; i < len(c.log); i++ {
-				lt.force[i] = true
-			}
-			c.mu.Unlock()
 		}
 	case "reissue":
 		// two-fault scenario: introduce exactly (torn epoch - recovered epoch) batches while the persister naps, none of
